@@ -47,6 +47,11 @@ class Options(MutableMapping, dict):
 
         # User options
         if user_options is not None:
+            # user_options may be another Options object: its own record of
+            # user-defined names is not an option and must not be shared
+            user_options = {
+                k: v for (k, v) in user_options.items() if k != "useroptions"
+            }
             self.update(user_options)
             self["useroptions"].update(user_options.keys())
 
